@@ -14,18 +14,22 @@ SPEC = dict(
                 "ColtGet::get (force_drain of the leaf under the cursor, merge_node into the next taller trie, or_default children in the "
                 "taller tries) preserves the multiset of rows of the forest for every chain of gets from the root on every forest, and on a well-formed "
                 "forest the cursor reached by the chain holds exactly the rows that carry the path in their first columns; the changed "
-                "flag of merge is exact under the invariant; the deep join's output is well formed; "
-                "== <-> same rows and partial_cmp = inclusion order (Equal/Less/Greater/None) "
-                "under the invariant Good (well-formed + no empty child + no forced leaf), which default/new_from/insert/merge are proved "
-                "to establish and keep. Refuted on concrete witnesses (and reproduced on the real code): without the invariant ==/partial_cmp "
-                "disagree with the rows (F7: join outputs carry empty children; F22: force_drain sets the leaf flag `forced` that the derived "
-                "PartialEq compares). Tie: the model is run as a native driver on the same op histories as the real lattices::ght types "
+                "flag of merge is exact under the invariant Good (well-formed + no empty child + no forced leaf, which default/new_from/insert/merge "
+                "are proved to establish and keep); the deep join's output is well formed; "
+                "== <-> same rows and partial_cmp = inclusion order (Equal/Less/Greater/None) for ALL well-formed hash-set tries "
+                "(eq_iff_same_rows, cmp_iff_subset; join outputs with empty children, COLT or_default children and forced leaves included), "
+                "== <-> partial_cmp == Equal and is_bot <-> == default (eq_iff_cmp_equal). These comparison theorems are about the code after two "
+                "/repo fixes: as shipped ==/partial_cmp counted present-but-empty children (F7, 0835a8893c6) and the derived PartialEq of a leaf "
+                "compared the COLT flag `forced` (F22, d3e006307d1); the clause is refuted for the old code on concrete witnesses "
+                "(eq_cmp_empty_child_refuted_before_fix, eq_iff_same_rows_refuted_before_fix, eq_forced_leaf_refuted_before_fix; "
+                "witnesses kept in the corpus and replayed on the real code). Tie: the model is run as a native driver on the same op histories as the real lattices::ght types "
                 "(6 key/value shapes x hash-set/counted/column storage, plus ColtType!(u32,u32,u32) forests driven through chained ColtGet::get; "
                 "bounded-exhaustive op sequences + seeded random + malformed lines) "
                 "and every answer incl. a structural dump (through the public GhtGet API) is diffed; the property itself is evaluated on the "
                 "real code against an independent set/multiset oracle."),
     level_note=("Trusted: Lean kernel; HashMap modelled as an association list with distinct keys, leaf storages modelled as lists "
-                "(hash set: no duplicates; counted/column: multiset, iteration order not observed); the Rust variadic type machinery "
+                "(hash set: no duplicates; counted/column: multiset, iteration order not observed); `children.get(k).filter(has_rows)` is modelled as a lookup "
+                "in the list of children that hold rows (same thing for distinct keys); the Rust variadic type machinery "
                 "(SplitBySuffix, column of a node = its depth) is mirrored by an explicit depth parameter, exercised by correspondence; "
                 "the COLT cursor is modelled as (forest, path) — the Rust cursor is a variadic of &mut into the forest; its printing through "
                 "nodeAt is part of the driver, the theorem is about subRows of the same nodes; harness/differ are our code."),
